@@ -25,7 +25,7 @@ def calc_velo_and_disp_from_accel_arr(acceleration, dt, trap=True):
     acceleration = np.asarray(acceleration)
     if acceleration.dtype.kind in 'iub':  # integer counts: a[i] + a[i-1] overflows narrow integer types
         acceleration = acceleration.astype(float)
-    if trap is False:
+    if not trap:  # any false flag (False, np.False_, 0) selects the rectangle rule
         velocity = np.zeros(len(acceleration) + 1)
         velocity[1:] = np.asarray(acceleration) * dt  # computes the increments
         np.cumsum(velocity, out=velocity)  # passed into original array for efficiency
